@@ -682,7 +682,8 @@ def valid_case(c):
             and c.get("cls") in (None, "base", "tuples_only") and not (c.get("obj") in ("dict", "frame") and c.get("cls"))
     if k == "new":
         return (c.get("fields") is None or (isinstance(c.get("fields"), list) and all(isinstance(f, str) for f in c["fields"]))) \
-            and isinstance(c.get("arg"), list) and len(c["arg"]) >= 2 and c["arg"][0] in ("t", "d")
+            and isinstance(c.get("arg"), list) and len(c["arg"]) >= 2 and c["arg"][0] in ("t", "d", "m") \
+            and (c["arg"][0] != "m" or (len(c["arg"]) == 3 and c["arg"][1] in MAPPING_KINDS and isinstance(c["arg"][2], dict)))
     return k in ("reserved", "refuse", "big", "deep", "glue", "input")
 
 
@@ -1033,7 +1034,11 @@ def evaluate(ctx, cases):
         elif k == "new":
             info = new_run(c)
             if info["model"]:
-                lines.append("C01 rownew " + wire.line(c["fields"], [c["arg"][0]] + ([c["arg"][1]] if c["arg"][0] == "t" else [bool(c["arg"][1]), c["arg"][2]])))
+                if c["arg"][0] == "m":
+                    # a mapping that is not a dict: the model gets the entries of the dictionary it stands for (`dict(mapping)`, Python's own)
+                    lines.append("C01 rownew " + wire.line(c["fields"], ["m", info.get("entries", c["arg"][2])]))
+                else:
+                    lines.append("C01 rownew " + wire.line(c["fields"], [c["arg"][0]] + ([c["arg"][1]] if c["arg"][0] == "t" else [bool(c["arg"][1]), c["arg"][2]])))
             if info.get("rec") is not None:
                 lines.append("C01 encode " + wire.line(int.from_bytes(info["rec"][6:14], "big"), info["expect"]))
             plan.append((c, first, len(lines), info))
@@ -1923,6 +1928,50 @@ class _OD(dict):
     """a subclass of dict (what `type(data) is not dict` is there for)"""
 
 
+MAPPING_KINDS = ("userdict", "chainmap", "proxy", "custom", "ordered-userdict")
+
+
+def make_mapping(kind, entries):
+    """A mapping that is NOT a dict (orso/row.py: `isinstance(data, Mapping)` and not a dict / tuple / list) with these entries."""
+    import collections
+    import collections.abc
+    import types
+
+    d = {k: to_py(v, False) for k, v in entries.items()}
+    if kind == "userdict":
+        return collections.UserDict(d)
+    if kind == "ordered-userdict":
+        class _UD(collections.UserDict):
+            pass
+
+        return _UD(d)
+    if kind == "proxy":
+        return types.MappingProxyType(d)
+    if kind == "chainmap":
+        # the front map holds every other key and shadows one key of the back map
+        items = list(d.items())
+        front = dict(items[::2])
+        back = dict(items[1::2])
+        if items:
+            back[items[0][0]] = "shadowed"
+        return collections.ChainMap(front, back)
+
+    class _M(collections.abc.Mapping):  # read-only, hand-written: only __getitem__ / __iter__ / __len__
+        def __init__(self, inner):
+            self._inner = inner
+
+        def __getitem__(self, k):
+            return self._inner[k]
+
+        def __iter__(self):
+            return iter(self._inner)
+
+        def __len__(self):
+            return len(self._inner)
+
+    return _M(d)
+
+
 def new_run(c):
     """`cls(arg)` on the real class, then `as_bytes` / `from_bytes` of the object.  -> {built: ["ok", items] | ["err", name],
     model: is the case inside the model of Row.__new__ (text keys, a class whose __new__ is Row's), expect, rec, back}"""
@@ -1934,6 +1983,10 @@ def new_run(c):
         R = Row if fields is None else Row.create_class(fields, tuples_only=(c.get("cls") == "tuples_only"))
         if arg[0] == "t":
             data = tuple(to_py(x, False) for x in arg[1])
+        elif arg[0] == "m":
+            data = make_mapping(arg[1], arg[2])
+            stands_for = dict(data)  # Python's own reading of the mapping, before orso sees it
+            info["entries"] = {k: canon(v) for k, v in stands_for.items()}
         else:
             data = {k: to_py(v, False) for k, v in arg[2].items()}
             if not arg[1]:
@@ -1950,8 +2003,10 @@ def new_run(c):
     # dictionary one value per field in field order, None for a missing field
     if arg[0] == "t":
         expect = list(arg[1])
-    elif c.get("cls") == "tuples_only":
-        expect = None
+    elif c.get("cls") == "tuples_only" or fields is None:
+        expect = None  # `Row` itself has no fields to lay a dictionary out by (the model: TypeError); whatever was built is compared with that
+    elif arg[0] == "m":
+        expect = [info["entries"].get(f) for f in fields]
     else:
         expect = [arg[2].get(f) for f in fields]
     info["expect"] = expect
@@ -1976,7 +2031,7 @@ def new_run(c):
 def eval_new(ctx, c, info, mo):
     ctx.case(c, True)
     ctx.hit("kind:new")
-    ctx.hit("new:%s/%s/%s" % ("base" if c["fields"] is None else (c.get("cls") or "factory"), c["arg"][0] if c["arg"][0] == "t" else ("dict" if c["arg"][1] else "dict-subclass"),
+    ctx.hit("new:%s/%s/%s" % ("base" if c["fields"] is None else (c.get("cls") or "factory"), c["arg"][0] if c["arg"][0] == "t" else ("mapping:" + c["arg"][1] if c["arg"][0] == "m" else ("dict" if c["arg"][1] else "dict-subclass")),
                               info["built"][0] if info["built"][0] == "ok" else info["built"][1]))
     mo = list(mo)
     if info["model"]:
@@ -1985,14 +2040,14 @@ def eval_new(ctx, c, info, mo):
             ctx.disagree(c, {"row": info["built"]}, {"row": m}, "cls(data) builds another row than the model of Row.__new__")
             return
     if info.get("enc_err"):
-        ctx.fail(c, "the encoder refuses a row of the value domain (%s) [row built by cls(%s)]" % (info["enc_err"], "tuple" if c["arg"][0] == "t" else "dict"),
+        ctx.fail(c, "the encoder refuses a row of the value domain (%s) [row built by cls(%s)]" % (info["enc_err"], "tuple" if c["arg"][0] == "t" else ("mapping" if c["arg"][0] == "m" else "dict")),
                  impl=info["enc_err"], model=None)
         return
     if info.get("rec") is not None:
         g, exc = info["back"]
         cl = judge_emitted(g, exc, info["built"][1])
         if cl is not None:
-            ctx.fail(c, cl[0] + " [row built by cls(%s)]" % ("tuple" if c["arg"][0] == "t" else "dict"), impl={"record": info["rec"], "got": cl[1], "built": info["built"]},
+            ctx.fail(c, cl[0] + " [row built by cls(%s)]" % ("tuple" if c["arg"][0] == "t" else ("mapping" if c["arg"][0] == "m" else "dict")), impl={"record": info["rec"], "got": cl[1], "built": info["built"]},
                      model={"row": info["expect"]})
             return
         me = model_forms(mo.pop(0), "encode")[0]
@@ -2012,17 +2067,27 @@ def new_cases(rng):
             out.append({"kind": "new", "fields": fields, "arg": ["d", exact, dict(list(full.items())[1:])]})  # a missing field
             out.append({"kind": "new", "fields": fields, "arg": ["d", exact, dict(full, zz=7, A="upper")]})  # surplus keys
             out.append({"kind": "new", "fields": fields, "arg": ["d", exact, {}]})
+        for kind in MAPPING_KINDS:
+            # a mapping that is not a dict stands for its dictionary: never the row of its keys
+            out.append({"kind": "new", "fields": fields, "arg": ["m", kind, full]})
+            out.append({"kind": "new", "fields": fields, "arg": ["m", kind, dict(rev, zz=7)]})
+            out.append({"kind": "new", "fields": fields, "arg": ["m", kind, dict(list(full.items())[1:])]})
+        out.append({"kind": "new", "fields": fields, "arg": ["m", "userdict", {}]})
+        out.append({"kind": "new", "fields": fields, "cls": "tuples_only", "arg": ["m", "userdict", full]})
         out.append({"kind": "new", "fields": fields, "arg": ["t", [vals[i % len(vals)] for i in range(len(fields))]]})
         out.append({"kind": "new", "fields": fields, "arg": ["t", [1, 2, 3, 4]]})  # more items than fields: a tuple is kept as it is
         out.append({"kind": "new", "fields": fields, "cls": "tuples_only", "arg": ["t", [vals[i % len(vals)] for i in range(len(fields))]]})
     out.append({"kind": "new", "fields": None, "arg": ["t", [1, "a"]]})
     out.append({"kind": "new", "fields": None, "arg": ["d", True, {"a": 1}]})
     out.append({"kind": "new", "fields": None, "arg": ["d", False, {}]})
+    out.append({"kind": "new", "fields": None, "arg": ["m", "proxy", {"a": 1}]})
     for _ in range(40):
         n = rng.randrange(0, 6)
         fields = ["f%d" % rng.randrange(0, 7) for _ in range(n)]
         d = {"f%d" % rng.randrange(0, 9): vals[rng.randrange(len(vals))] for _ in range(rng.randrange(0, 8))}
         out.append({"kind": "new", "fields": fields, "arg": ["d", rng.random() < 0.7, d]})
+        if rng.random() < 0.5:
+            out.append({"kind": "new", "fields": fields, "arg": ["m", MAPPING_KINDS[rng.randrange(len(MAPPING_KINDS))], d]})
     return out
 
 
